@@ -40,6 +40,10 @@ def jobs(tier):
             for pre in (["false_region"], ["aborted_region"], ["self_first"]):
                 cfg = dict(n=4, r=2, bound=(1 << 64), track_all=True, guard=None, prelude=pre)
                 js.append(dict(name="%s/n4/after-%s" % (e.name, pre[0]), entry=e.name, backend="snarkjs", cfg=cfg, tier=tier, weight=2))
+            for pre in (["false_region"], ["true_region"], ["aborted_region"]):
+                cfg = dict(n=4, r=2, bound=(1 << 64), track_all=True, guard="sym", inner_prelude=pre)
+                js.append(dict(name="%s/n4/guard-inside-after-%s" % (e.name, pre[0]), entry=e.name, backend="snarkjs", cfg=cfg,
+                               tier=tier, weight=3))
     return js
 
 
